@@ -13,4 +13,6 @@ echo "== demo with change"; PYTHONPATH="$WT" /venv/bin/python "$SEED/demo.py" >/
 echo "== suite with change"; PYTHONPATH="$WT" /venv/bin/python -m pytest -q -p no:cacheprovider --timeout=900 2>&1 | tail -1
 echo "== check $PROP ($TIER) with change"
 (cd "$HERE" && VERIF_REPO="$WT" ./check "$PROP" --tier "$TIER" 2>&1 | grep -E "VIOLATION|tier=|INFRA" | head -5)
+# the run above regenerated tables / evidence from the CHANGED tree: put the committed ones back
+(cd "$HERE" && git checkout -q -- lean/CssVerif/Gen evidence 2>/dev/null)
 cd /; git -C /repo worktree remove --force "$WT"; rm -f /tmp/sc-$$.out
